@@ -15,8 +15,97 @@ const maxMsgSize = int64(1) << 40
 
 // ---- generator -----------------------------------------------------------------------------------
 
+// genC42Exact: quotas above 2^24 that no 32-bit float represents (2^e + k*ulp + about half an ulp), no reserved percentage in
+// most runs, and per peer a history sized to meet the byte limit exactly: a small first message, one to three large messages
+// that fill the quota up to a few bytes, then a tail of tiny messages. Any rounding of the limit shows as accepted bytes
+// beyond quota + first message.
+func genC42Exact(r *simkit.Rand, p *simkit.Plan) *simkit.Plan {
+	p.Knobs["shape"] = 1
+	e := uint(r.Range(25, 40))
+	ulp := int64(1) << (e - 23)
+	q := int64(1)<<e + r.Int63n(1<<23)*ulp
+	switch r.Weighted([]int{6, 2, 1}) {
+	case 0:
+		q += ulp/2 + 1 + r.Int63n(maxI64(1, ulp/2-1)) // just above the midpoint between two floats
+	case 1:
+		q += 1 + r.Int63n(maxI64(1, ulp/2-1)) // just above a float
+	default:
+		q += r.Int63n(ulp)
+	}
+	p.Knobs["max_bytes"] = q
+	p.Knobs["base_msgs"] = int64(r.Range(500, 100000))
+	p.Knobs["pct_milli"] = 0
+	if r.Chance(0.15) {
+		p.Knobs["pct_milli"] = int64(r.Range(1, 90)) * 1000
+	}
+	p.Knobs["fac_num"], p.Knobs["fac_den"], p.Knobs["threshold"] = 0, 1, 0
+	nPeers := r.Range(1, 3)
+	p.Knobs["n_peers"] = int64(nPeers)
+	p.Knobs["cache_cap"] = int64(nPeers + r.Range(0, 4))
+	p.Knobs["cache_kind"] = int64(r.Intn(2))
+	p.Knobs["n_status"] = int64(r.Intn(2))
+	load := func(peer int, size int64) {
+		if size < 0 {
+			size = 0
+		}
+		if size > maxMsgSize {
+			size = maxMsgSize
+		}
+		p.Steps = append(p.Steps, simkit.Step{Op: "load", T: peer, I: []int64{size}})
+	}
+	for round := r.Range(1, 2); round > 0; round-- {
+		for peer := 0; peer < nPeers; peer++ {
+			first := int64(0)
+			if r.Chance(0.5) {
+				first = r.Int63n(minI64(ulp/2, 64) + 1)
+			}
+			load(peer, first)
+			remaining := q - first - r.Int63n(minI64(ulp, 200)+1) // leave a small gap below the quota
+			for parts := r.Range(1, 3); parts > 0 && remaining > 0; parts-- {
+				chunk := remaining
+				if parts > 1 {
+					chunk = remaining/2 + r.Int63n(remaining/2+1)
+				}
+				if chunk > maxMsgSize {
+					chunk = maxMsgSize
+				}
+				load(peer, chunk)
+				remaining -= chunk
+			}
+			tiny := int64(1)
+			if r.Chance(0.4) {
+				tiny = 1 + r.Int63n(minI64(ulp/4+1, 50))
+			}
+			for n := r.Range(8, 40); n > 0; n-- {
+				load(peer, tiny)
+			}
+		}
+		if round > 1 {
+			p.Steps = append(p.Steps, simkit.Step{Op: "reset"})
+		}
+	}
+	return p
+}
+
+func minI64(a, b int64) int64 {
+	if a < b {
+		return a
+	}
+	return b
+}
+
+func maxI64(a, b int64) int64 {
+	if a > b {
+		return a
+	}
+	return b
+}
+
 func genC42(r *simkit.Rand, tier string) *simkit.Plan {
 	p := &simkit.Plan{Arm: "faultfree", Knobs: map[string]int64{}}
+	if r.Chance(0.2) {
+		return genC42Exact(r, p)
+	}
 	// message quota
 	var base int64
 	switch r.Weighted([]int{6, 2, 1, 1}) {
@@ -200,6 +289,9 @@ func execC42(c *simkit.Ctx) bool {
 	}
 	c.Eventf("new base=%d bytes=%d pct=%v factor=%d/%d thr=%d peers=%d cap=%d", base, maxBytes, arg.PercentReserved, facNum, facDen, thr, nPeers, capacity)
 
+	if p.Knob("shape", 0) == 1 {
+		c.Probe("exact_limit_run")
+	}
 	msgQuota := base // upper bound of the message quota in force
 	peers := make([]peerModel, nPeers)
 	refusedAfterAccept := false
@@ -237,6 +329,9 @@ func execC42(c *simkit.Ctx) bool {
 			if errLoad != nil {
 				c.Probe("quota_reached")
 				refusedAfterAccept = true
+				if size >= 1 && size <= 64 && pm.bytes <= maxBytes && maxBytes-pm.bytes < uint64(size) {
+					c.Probe("tiny_message_refused_exactly_at_byte_quota")
+				}
 				if pm.count == maxU64(1, msgQuota) {
 					c.Probe("refused_exactly_at_message_quota")
 				}
